@@ -5,10 +5,11 @@ PROP = dict(
     coq_target="Properties/C03.vo",
     harness=[dict(name="absentkeys", pkg=".", run="^TestVerif_C03$",
                   files={"zz_verif_fixture_test.go": "harness/main/fixture_test.go",
-                         "zz_verif_c03_test.go": "harness/main/c03_test.go"},
+                         "zz_verif_c03_test.go": "harness/main/c03_test.go",
+                         "zz_verif_c03conc_test.go": "harness/main/c03conc_test.go"},
                   timeout=900, timeout_thorough=2400)],
-    technique="Coq proof with the index lookups as arbitrary functions (collisions included) + directed collision search on the real indexes replayed through Epoch, JSON-RPC and gRPC",
-    level_text="Theorems (Coq, no axioms), for ARBITRARY index contents, CAR bytes and decoders: a getBlock/getTransaction answer carries the requested slot / first signature, an absent key is never answered, a CID fetch returns only bytes stored in a section whose CID field is the requested CID; the unchecked variant is refuted by a witness. Tie: in a generated 2 200-block epoch every absent slot of the epoch, 250 000 absent signatures, 200 000 absent CIDs and absent addresses are tried with the index's own lookup; each colliding key (tens per run) is requested through Epoch, the JSON-RPC handler and gRPC with one and three epochs loaded, and the outcome class is compared with the model.",
+    technique="Coq proof with the index lookups as arbitrary functions (collisions included) + directed collision search on the real indexes replayed through Epoch, JSON-RPC and gRPC, sequentially and concurrently (schedule forced by a gated CAR reader)",
+    level_text="Theorems (Coq, no axioms), for ARBITRARY index contents, CAR bytes and decoders: a getBlock/getTransaction answer carries the requested slot / first signature, an absent key is never answered, a CID fetch returns only bytes stored in a section whose CID field is the requested CID; the unchecked variant is refuted by a witness. Tie: in a generated 2 200-block epoch every absent slot of the epoch, 250 000 absent signatures, 200 000 absent CIDs and absent addresses are tried with the index's own lookup; each colliding key (tens per run) is requested through Epoch, the JSON-RPC handler and gRPC with one and three epochs loaded, and the outcome class is compared with the model. Concurrency: each colliding (absent, stored) pair is also requested CONCURRENTLY in both orders, the first request held in its CAR read (CAR served through a ReaderAt of the harness), through Epoch, JSON-RPC and gRPC with one and with four epochs loaded; objects lying at the same CAR offset (and section length) in DIFFERENT loaded epochs are fetched by CID concurrently the same way (two small epochs are generated so that such positions exist); plus an un-gated many-goroutine replay on the local CAR file.",
     level_note="Trusted: Coq kernel; hand-written model of epoch.go GetBlock/GetTransaction/GetNodeByCid; decoders as parameters. GSFA address confirmation is NOT provable of the code (no address stored): recorded as known finding gsfa-address-collision; only that signature is suppressed.",
     design_ref="5 (C03)",
     trusted=["model C03_Lookup.v of epoch.go (hand-written; tied by collision replay on generated epochs)"] + COMMON_TRUSTED,
